@@ -966,3 +966,15 @@ M("c11-checkpoints-set-without-reroute", "C11", "cola/libavoid/connector.cpp",
 M("c08-fixed-rectangle-cluster-skips-children-bounds", "C08", "cola/libcola/cluster.cpp",
   "            (*i)->computeBoundingRect(rs);\n        }\n        // For bounds, just use this shape's rectangle.",
   "            if (!(*i)->clusters.empty()) (*i)->computeBoundingRect(rs);\n        }\n        // For bounds, just use this shape's rectangle.", mention=["CLUSTER-BOUNDS"])
+M("c11-process-actions-keeps-transactions-off", "C11", "cola/libavoid/router.cpp",
+  "    const bool consolidateActions = m_consolidate_actions;\n    m_consolidate_actions = true;\n", "    const bool consolidateActions = m_consolidate_actions;\n",
+  mention=["NO-NESTED-TRANSACTION"])
+M("c11-process-actions-leaves-transactions-on", "C11", "cola/libavoid/router.cpp",
+  "    actionList.clear();\n\n    m_consolidate_actions = consolidateActions;\n", "    actionList.clear();\n", mention=["NO-NESTED-TRANSACTION"])
+M("c11-fixed-route-pins-freed", "C11", "cola/libavoid/router.cpp",
+  "        if ((*i)->hasFixedRoute())\n        {\n            // Not rerouted below, so it keeps the pins its route ends at.\n            continue;\n        }\n", "",
+  mention=["FIXED-ROUTE-KEEPS-PINS"])
+M("c11-pins-freed-for-half-the-connectors", "C11", "cola/libavoid/router.cpp",
+  "        if ((*i)->hasFixedRoute())\n        {\n            // Not rerouted below, so it keeps the pins its route ends at.",
+  "        if ((*i)->hasFixedRoute() || (*i)->isInitialised())\n        {\n            // Not rerouted below, so it keeps the pins its route ends at.",
+  mention=["PIN-BOOKKEEPING"])
